@@ -35,6 +35,35 @@ func goEnv() []string {
 	return append(os.Environ(), "GOFLAGS=-mod=mod", "GOPROXY=off", "GOSUMDB=off", "GOTOOLCHAIN=local")
 }
 
+// Every replay build (instrumented overlays, scratch modules) adds tens to hundreds of MB to the Go build
+// cache. The tool therefore uses a build cache of its own under /verif/.cache and empties it when it grows
+// beyond a bound, so that running the checks many times cannot fill the disk. VERIF_GOCACHE overrides the
+// location; VERIF_GOCACHE=default keeps the user's cache.
+func setupGoCache() {
+	dir := os.Getenv("VERIF_GOCACHE")
+	if dir == "default" {
+		return
+	}
+	if dir == "" {
+		dir = filepath.Join(verifDir, ".cache", "go-build")
+	}
+	const limit = int64(3) << 30
+	var size int64
+	filepath.Walk(dir, func(_ string, fi os.FileInfo, err error) error {
+		if err == nil && !fi.IsDir() {
+			size += fi.Size()
+		}
+		return nil
+	})
+	if size > limit {
+		os.RemoveAll(dir)
+	}
+	if err := os.MkdirAll(dir, 0o755); err != nil {
+		return
+	}
+	os.Setenv("GOCACHE", dir)
+}
+
 func writeScratchModule(dir string) error {
 	gomod := "module scratchmod\n\ngo 1.23\n\nrequire github.com/csgura/fp v0.0.0\n\nreplace github.com/csgura/fp => " + repoDir + "\n"
 	if err := os.WriteFile(filepath.Join(dir, "go.mod"), []byte(gomod), 0o644); err != nil {
